@@ -20,15 +20,19 @@
    - pushed values and the persistent memory, per step (Sched/Persist.v): a slot no pulled connection writes is given the
      last due entry in (due time, arrival number) order, else the registers' content; the memory then holds what the
      step was given.
-   Missing (C03_partial): chaining the per-step memory theorem over a run into "the most recent value ever due" for
-   pushed persistent data (cache off); scenarios with groups
+   - pushed persistent data over whole runs (Sched/PushRun.v, Sched/PushMem.v): for a slot registered in the persistent
+     memory that no pulled connection and no set_data call writes, the memory after any run prefix and the value every
+     step is given is the value of the entry of the source's stream with the latest due time at or before the step (the
+     last pushed among equals), else the initial value: "the most recent value ever due", a function of the source's
+     outputs only (C03_persistent_pushed_input_is_newest_due_output, C03_memory_over_runs).
+   Missing (C03_partial): scenarios with groups
    (sub-steps) for the strictness premises - there the data plane is keyed by the integer time only (known finding F11).
    "Produced so far" is "ever produced": C03_later_outputs_are_not_due - every output a provider
    delivers after the consumer's BEGIN(j,t) has a delayed output time after t (from C01's guard, monotone progress and
    the lower-bound invariant). *)
 From Coq Require Import ZArith List Bool Arith.
 Import ListNotations.
-From MV Require Import Time.Spec Static.Build Sched.Timing Sched.Inv Sched.Main Sched.Certify Sched.Quiet Sched.Plane Sched.DataP Sched.PruneRun Sched.Final Sched.Later Sched.PullRun Sched.EventRun Sched.SetData Sched.Persist.
+From MV Require Import Time.Spec Static.Build Sched.Timing Sched.Inv Sched.Main Sched.Certify Sched.Quiet Sched.Plane Sched.DataP Sched.PruneRun Sched.Final Sched.Later Sched.PullRun Sched.EventRun Sched.SetData Sched.Persist Sched.PushRun Sched.PushMem.
 Open Scope Z_scope.
 
 Theorem C03_partial_events_exactly_once_never_early : forall dt ds i step inp ds',
@@ -234,3 +238,65 @@ Theorem C03_generated_merge_existing_is_the_model : forall p i, NoDup (map fst p
   Gen.InternalUtil.merge_existing (fun m im => Gen.InternalUtil.merge_existing (fun _ v_new => v_new) m im) p i.
 Proof. exact Sched.MergeTie.tie_merge_existing. Qed.
 Print Assumptions C03_generated_merge_existing_is_the_model.
+
+(* ---- pushed persistent data over whole runs ---- *)
+(* the slot (attribute a of j, source k): registered in the persistent memory with initial value v0, written by no pulled
+   connection and no set_data call.  mem v0 T S = the value of the entry of S with the latest due time <= T (the last one
+   in S among equal due times), v0 if there is none; stream = what k's outputs push into the slot, in k's own order.
+   After every prefix of a run from the initial state the memory holds mem v0 (latest begun step of j) (stream so far) *)
+Theorem C03_memory_over_runs : forall st dt, static_ok st -> forall j a k, push_strict st dt -> not_pulled dt j a k ->
+  forall v0, iget a k (init_persist dt j) = Some v0 ->
+  forall evs s ds, in_range st evs -> no_setdata st j a k evs ->
+  dfinal st dt (init_state st) (init_dstate dt) evs = Some (s, ds) ->
+  iget a k (persist (ds j)) = Some (mem v0 (lastb j evs) (stream dt j a k evs)) /\ iget a k (setdata (ds j)) = None.
+Proof. exact memory_of_run. Qed.
+Print Assumptions C03_memory_over_runs.
+
+(* ... and a step for t is given the newest value of the WHOLE run's stream due by t (by max(t, earlier steps of j), which
+   is t because steps never go back, C02): what the source pushes later in the run is due after t *)
+Theorem C03_persistent_pushed_input_is_newest_due_output : forall st dt, static_ok st -> forall j a k, push_strict st dt -> not_pulled dt j a k ->
+  forall v0, iget a k (init_persist dt j) = Some v0 ->
+  forall pre t m post sp dsp s1 ds1 inp sf dsf,
+  in_range st (pre ++ DBegin j t m :: post) -> no_setdata st j a k pre ->
+  dfinal st dt (init_state st) (init_dstate dt) pre = Some (sp, dsp) ->
+  dapply_gen false st dt (sp, dsp) (DBegin j t m) = DOk s1 ds1 (Some inp) ->
+  dfinal st dt (init_state st) (init_dstate dt) (pre ++ DBegin j t m :: post) = Some (sf, dsf) ->
+  iget a k inp = Some (mem v0 (omax (lastb j pre) (thd t)) (stream dt j a k (pre ++ DBegin j t m :: post))).
+Proof. exact pushed_value_of_run. Qed.
+Print Assumptions C03_persistent_pushed_input_is_newest_due_output.
+
+(* the choice among due entries, as a function of the pairs (due time, value) in arrival order *)
+Theorem C03_due_entry_choice_is_pick : forall a k (L:list bufentry) step,
+  Sorted.StronglySorted (fun e y : bufentry => (bctr y < bctr e)%nat) L ->
+  option_map pv (last_for a k (sort_b (filter (fun e => btime e <=? step) L))) =
+  pick (filter (fun p => fst p <=? step) (map pv (rev (filter (slot a k) L)))).
+Proof. exact last_for_is_pick. Qed.
+Print Assumptions C03_due_entry_choice_is_pick.
+
+(* non-vacuity: cache off, A (time-based, persistent output) -> trigger input of B (event-based): the slot is pushed and
+   registered in B's memory with initial value None; A produces 7 at time 0 and nothing at times 1 and 2; B steps at 0 (given
+   the event 7) and, on its own schedule, at 2 - where nothing is due and it is given the remembered 7 = mem None (Some 2) stream *)
+From MV Require Import Static.Groups Static.Connect Sched.Link Sched.Guards.
+Example C03_memory_nonvacuous :
+  let f := mkF true true false true true 0 false false false in
+  let sc := mkScen [None] (fun _ => 0%nat) (fun i => if Nat.eqb i 0 then TimeBased else EventBased) 2
+                   [mkConn 0 1 2 1 f false 0] [] 3 100 false false in
+  let evs := [DEv (EvStart 0); DEv (EvStart 1); DBegin 0 [0] 3; DEv (EvStep 0 (Some 1)); DData 0 0 [2%nat] [(2%nat,7)];
+              DBegin 1 [0] 0; DEv (EvStep 1 (Some 2));
+              DBegin 0 [1] 3; DEv (EvStep 0 (Some 2)); DData 0 1 [] [];
+              DBegin 0 [2] 3; DEv (EvStep 0 (Some 3)); DData 0 2 [] [];
+              DBegin 1 [2] 3; DEv (EvStep 1 None)] in
+  match prepare 100 sc with
+  | Prepared st dt t anc =>
+      check_static sc t anc = true /\ push_strictb st dt = true /\ pulled dt 1%nat = [] /\
+      iget 1%nat 0%nat (init_persist dt 1%nat) = Some None /\
+      (exists r, dfinal st dt (init_state st) (init_dstate dt) evs = Some r) /\
+      stream dt 1%nat 1%nat 0%nat evs = [(0, 7)] /\ mem None (Some 2) (stream dt 1%nat 1%nat 0%nat evs) = Some 7 /\
+      filter (fun o => match o with Some _ => true | None => false end) (dinputs false st dt (init_state st) (init_dstate dt) evs) =
+        [Some []; Some [(1%nat, [(0%nat, Some 7)])]; Some []; Some []; Some [(1%nat, [(0%nat, Some 7)])]]
+  | _ => False end.
+Proof.
+  vm_compute prepare. cbv beta iota.
+  split; [vm_compute; reflexivity|]. split; [vm_compute; reflexivity|]. split; [reflexivity|]. split; [reflexivity|].
+  split; [eexists; vm_compute; reflexivity|]. split; vm_compute; auto.
+Qed.
